@@ -687,7 +687,8 @@ ModsFamily ==
         /\ (v.attr \notin {"start", "value"} => v.xtype = "Real" /\ v.xpre = "" /\ ~v.same)
         /\ (v.xpre # "" => v.attr = "value" \/ Wide)          \* a parameter's value stays an attribute, a variable's becomes an equation
         /\ (v.attr \in {"fixed", "unit"} => \A j \in DOMAIN v.mods : v.mods[j].e = "lit")
-        /\ (v.xtype # "Real" => v.xpre = "" /\ ~v.same /\ \E j \in DOMAIN v.mods : v.mods[j].k \in {"type", "decl"})
+        \* alias-typed (and alias-of-alias) targets: every site and every pair of sites, in every spelling
+        /\ (v.xtype # "Real" => v.xpre = "" /\ ~v.same /\ (Wide \/ Len(v.mods) <= 2))
         /\ (v.same => \E j \in DOMAIN v.mods : v.mods[j].e = "ref")
         \* a two-level extends chain is only interesting when BOTH of its clauses modify the target
         /\ \A i \in 1..v.depth : v.split[i] = "chain2" =>
